@@ -570,6 +570,8 @@ class ExprMixin:
         return self.getitem(o, self.eval(e.slice, env, cls))
 
     def getslice(self, o, lo, hi):
+        if hasattr(o, "sym_getslice"):
+            return o.sym_getslice(self, lo, hi, None)
         if isinstance(o, BStr):
             if (lo is None or (isinstance(lo, int) and lo >= 0)) and (hi is None or (isinstance(hi, int) and hi >= 0)):
                 return bstr_slice(o, lo, hi)
@@ -754,15 +756,31 @@ class ExprMixin:
         return out
 
     def pure_bool(self, e, env, cls):
-        """boolean expression -> SBool/bool without forking (and/or/not are combined as terms; leaves must not branch)"""
+        """boolean expression -> SBool/bool without forking (and/or/not are combined as terms; a leaf may only branch on what
+        the operands to its left decide - Python's short-circuit evaluation: 'isinstance(x, M) and x.attr')"""
+        self.pure = getattr(self, "pure", 0) + 1
+        try:
+            return self._pure_bool(e, env, cls)
+        finally:
+            self.pure -= 1
+
+    def _pure_bool(self, e, env, cls):
         if isinstance(e, ast.BoolOp):
-            vs = [self.pure_bool(x, env, cls) for x in e.values]
+            vs, npc = [], len(self.pc)
+            try:
+                for x in e.values:
+                    v = self._pure_bool(x, env, cls)
+                    vs.append(v)
+                    t = v.t if isinstance(v, SBool) else z3.BoolVal(bool(v))
+                    self.pc.append(t if isinstance(e.op, ast.And) else z3.Not(t))  # what the operands to the right may rely on
+            finally:
+                del self.pc[npc:]
             if all(isinstance(v, bool) or v is None for v in vs):
                 return all(vs) if isinstance(e.op, ast.And) else any(vs)
             ts = [v.t if isinstance(v, SBool) else z3.BoolVal(bool(v)) for v in vs]
             return SBool(z3.And(ts) if isinstance(e.op, ast.And) else z3.Or(ts))
         if isinstance(e, ast.UnaryOp) and isinstance(e.op, ast.Not):
-            v = self.pure_bool(e.operand, env, cls)
+            v = self._pure_bool(e.operand, env, cls)
             return SBool(z3.Not(v.t)) if isinstance(v, SBool) else (not v)
         v = self.eval(e, env, cls)
         if isinstance(v, (SBool, bool)) or v is None:
